@@ -36,6 +36,7 @@ type Delivery struct {
 type Scenario struct {
 	RunSeed    uint64     `json:"run_seed"`
 	Parallel   int        `json:"parallel,omitempty"` // >0: that many signer/verifier pairs work concurrently, each with its own key (Deliveries are ignored)
+	Resign     bool       `json:"resign,omitempty"`   // the signer uses its SIG record a second time (a template kept between messages); the second output is what travels
 	Msg        gen.Recipe `json:"msg"`
 	Key        int        `json:"key"`
 	EpochS     int        `json:"epoch_s"`    // bubble is slept forward by this much first
@@ -74,6 +75,7 @@ func Gen(seed uint64, tier string) any {
 	if core.Chance(r, 8) {
 		sc.Parallel = 2 + r.IntN(3)
 	}
+	sc.Resign = core.Chance(r, 25)
 	sc.EpochS = core.Pick(r, 0, 1, 86400*365, 86400*365*20)
 	sc.InceptOff = core.Pick(r, 0, -300, 300, -1, 1, -86400)
 	sc.ValidFor = core.Pick(r, 600, 600, 2, 1, 0, 86400*30, -1, -300) // negative: expiration before inception, nothing is ever inside
@@ -164,6 +166,11 @@ func Shrink(x any) []any {
 	if sc.EpochS != 0 {
 		n := cp()
 		n.EpochS = 0
+		out = append(out, n)
+	}
+	if sc.Resign {
+		n := cp()
+		n.Resign = false
 		out = append(out, n)
 	}
 	if sc.InceptOff != 0 {
@@ -280,6 +287,20 @@ func runIn(sc *Scenario, res *core.Result, verbose bool) {
 		res.Fail("Q1", "sign-failed:"+err.Error(), "SIG.Sign (%s, compress=%v, %d octets packed, %d records) failed: %v", algName, sc.Msg.Compress, len(packed), len(m.Answer)+len(m.Ns)+len(m.Extra), err)
 		logf("sign failed: %v", err)
 		return
+	}
+	if sc.Resign {
+		// the same SIG record signs the message again, as an application that keeps a template would
+		res.Bump("oracle.Q1_sign_again_with_same_record")
+		signed2, err2 := sig.Sign(kp.priv, m)
+		if err2 != nil {
+			res.Fail("Q1", "resign-failed:"+err2.Error(), "signing a second time with the same SIG record failed: %v", err2)
+			return
+		}
+		if len(signed2) != len(signed) {
+			res.Fail("Q1", "resign-output-differs", "signing the same message a second time with the same SIG record produced %d octets instead of %d: the record's previous signature leaked into the new one", len(signed2), len(signed))
+			return
+		}
+		signed = signed2
 	}
 	logf("signed %s compress=%v len=%d", algName, sc.Msg.Compress, len(packed))
 	lay, perr2 := oracle.Parse(signed)
